@@ -211,6 +211,7 @@ class Unit:
         self.hoisted = []
         self.state_machine = False
         self.entry_for = set()
+        self.canary = None
 
     # ---- L4
     def reduce_attrs(self):
@@ -367,6 +368,28 @@ class Unit:
             del t[start:ce + 1]
         self.hoisted = moved
 
+    def rename_arm_items(self):
+        """state-machine output: the nested items `fn loop_test` / `const TABLE` of different match arms share one path
+        (Verus names nested items by the enclosing function only) -> renamed per arm"""
+        if not self.state_machine: return
+        t = self.toks
+        i_loop = find_seq(t, ['loop', '{', 'match', 'state', '{'])
+        if i_loop < 0: raise LexGenError('state-machine loop not found')
+        m_ob = i_loop + 4; m_cb = match(t, m_ob)
+        k = m_ob + 1; n = 0
+        while k < m_cb:
+            if t[k:k + 2] == ['LogosState', '::'] and t[k + 3] == '=>' and t[k + 4] == '{':
+                st = t[k + 2]; ce = match(t, k + 4)
+                declared = set()
+                for j in range(k + 4, ce):
+                    if t[j] in ('fn', 'const') and t[j + 1] in ('loop_test', 'TABLE'): declared.add(t[j + 1])
+                for j in range(k + 4, ce):
+                    if t[j] in declared: t[j] = '%s_%s' % (t[j], st); n += 1
+                k = ce + 1
+            else:
+                k += 1
+        if n: self.rewrites.append('L3 nested items loop_test / TABLE of the state-machine match arms renamed <name>_<State> (%d tokens)' % n)
+
     def make_bytes_view(self):
         t = self.toks
         i = find_seq(t, ['type', 'Source', '='])
@@ -433,6 +456,9 @@ class Unit:
         if self.state_machine:
             i = find_seq(t, ['let', 'mut', 'state', '=', 'LogosState', '::'])
             self.root = t[i + 6]
+            e = find_seq(t, ['enum', 'LogosState', '{'])
+            ce = match(t, e + 2)
+            self.state_fns = [x for x in t[e + 3:ce] if x != ',']
         else:
             # the tail expression of lex: <root>(lex, lex.offset(), None)
             k = lex[4] - 1
@@ -445,6 +471,10 @@ class Unit:
                 k -= 1
             self.root = t[k - 1]
             if self.root not in self.state_fns: raise LexGenError('cannot identify the root state function')
+
+    def late_accept(self, lo, hi):
+        """does toks[lo:hi] (a state body) end the token one byte back (`lex.end(offset - 1)`, regex-automata's delayed match)?"""
+        return find_seq(self.toks, ['lex', '.', 'end', '(', 'offset', '-', '1', ')'], lo, hi) >= 0
 
     def eoi_targets(self):
         """states entered from an end-of-input branch (`else { .. offset += 1; <transition> }` after a failed read):
@@ -491,11 +521,15 @@ class Unit:
                             'offset == old(lex).token_start ==> old(lex).token_end == old(lex).token_start && context.is_none()']
                 else:
                     req += ['old(lex).token_start < offset && offset <= %s' % bound]
+                late = self.late_accept(i_ob, i_cb)
+                if late:
+                    # the state stores `offset - 1` as the token end: a non-empty token needs token_start < offset - 1
+                    req += ['old(lex).token_start + 1 < offset']
                 req += ['context.is_some() ==> old(lex).token_start < old(lex).token_end']
                 ens = self.state_post()
                 dec = ['%s - old(lex).token_start' % L('old(lex)'), '%s + 1 - offset' % L('old(lex)')]
                 ins = self.render_contract(key, req, ens, dec)
-                self.fns[key] = dict(kind='state', root=(name == self.root), eoi_target=(name in eoi))
+                self.fns[key] = dict(kind='state', root=(name == self.root), eoi_target=(name in eoi), late_accept=late)
                 # result name
                 arrow = i_par + 1 + hdr[1:].index('->') if '->' in hdr else None
                 pe = match(t, i_par)
@@ -503,31 +537,89 @@ class Unit:
                 edits.append((pe + 2, 0, ['(', 'r', ':']))
                 edits.append((i_ob, 0, [')'] + ins))
                 edits += self.loop_invariants(key, i_ob, i_cb, name in eoi)
-            elif name == '_get_action':
-                key = '%s::_get_action' % self.name
-                req = [W('old(lex)'),
-                       'context.is_some() ==> old(lex).token_start < old(lex).token_end',
-                       'context.is_none() ==> offset <= %s && old(lex).token_start + 1 <= %s' % (L('old(lex)'), L('old(lex)'))]
-                ens = [W('final(lex)'),
-                       'final(lex).source == old(lex).source && final(lex).is_prefix == old(lex).is_prefix',
-                       'final(lex).token_start == old(lex).token_start',
-                       'final(lex).token_start < final(lex).token_end']
-                ins = self.render_contract(key, req, ens, None)
-                self.fns[key] = dict(kind='get_action')
-                pe = match(t, i_par)
-                edits.append((pe + 2, 0, ['(', 'r', ':']))
-                edits.append((i_ob, 0, [')'] + ins))
-            elif name == '_make_error':
-                key = '%s::_make_error' % self.name
-                req = [W('old(lex)')]
-                ens = [W('final(lex)'),
-                       'final(lex).source == old(lex).source && final(lex).is_prefix == old(lex).is_prefix',
-                       'final(lex).token_start == old(lex).token_start && final(lex).token_end == old(lex).token_end']
-                ins = self.render_contract(key, req, ens, None)
-                self.fns[key] = dict(kind='make_error')
-                edits.append((i_ob, 0, ins))
+            else:
+                edits += self.helper_contract(name, i_par, i_ob)
         for pos, dl, ins in sorted(edits, key=lambda e: -e[0]):
             t[pos:pos + dl] = ins
+
+    def contracts_state_machine(self):
+        t = self.toks
+        eoi = self.eoi_targets(); self.eoi = eoi
+        W = lambda x: WF.format(x=x); L = lambda x: LEN.format(x=x)
+        lex = [f for f in self.fn_items() if f[0] == 'lex_body'][0]
+        edits = []
+        for (name, i_fn, i_par, i_ob, i_cb) in self.fn_items(lex[3] + 1, lex[4]):
+            edits += self.helper_contract(name, i_par, i_ob)
+        i_loop = find_seq(t, ['loop', '{', 'match', 'state', '{'], lex[3], lex[4])
+        if i_loop < 0: raise LexGenError('state-machine loop not found')
+        key = '%s::lex_body' % self.name
+        inv = [W('lex'),
+               'lex.source == old(lex).source && lex.is_prefix == old(lex).is_prefix',
+               'old(lex).token_end <= lex.token_start',
+               'context.is_some() ==> lex.token_start < lex.token_end',
+               '%s < usize::MAX' % L('lex')]
+        arms = {}
+        m_ob0 = i_loop + 4; m_cb0 = match(t, m_ob0)
+        k = m_ob0 + 1
+        while k < m_cb0:
+            if t[k:k + 2] == ['LogosState', '::'] and t[k + 3] == '=>' and t[k + 4] == '{':
+                ce = match(t, k + 4); arms[t[k + 2]] = (k + 4, ce); k = ce + 1
+            else: k += 1
+        for st in self.state_fns:
+            bound = '%s + 1' % L('lex') if st in eoi else L('lex')
+            if st == self.root:
+                p = ('lex.token_start <= offset && offset <= %s && (offset == lex.token_start ==> lex.token_end == lex.token_start && context.is_none())' % bound)
+            else:
+                p = 'lex.token_start < offset && offset <= %s' % bound
+            if st in arms and self.late_accept(*arms[st]):
+                p += ' && lex.token_start + 1 < offset'
+            inv.append('(state is %s) ==> (%s)' % (st, p))
+        self.fns['%s::lex_body' % self.name]['states'] = list(self.state_fns)
+        ins = ['\n', 'invariant', '\n']
+        for k, c in enumerate(inv): ins += self.clause('%s.loop-main.invariant[%d]' % (key, k), c + ',')
+        ins += ['decreases', '\n'] + self.clause('%s.loop-main.decreases' % key, '%s - lex.token_start, %s + 1 - offset,' % (L('lex'), L('lex')))
+        edits.append((i_loop + 1, 0, ins))
+        # arms
+        m_ob = i_loop + 4; m_cb = match(t, m_ob)
+        k = m_ob + 1
+        while k < m_cb:
+            if t[k:k + 2] == ['LogosState', '::'] and t[k + 3] == '=>' and t[k + 4] == '{':
+                st = t[k + 2]; ce = match(t, k + 4)
+                edits += self.loop_invariants('%s[%s]' % (key, st), k + 4, ce, st in eoi)
+                k = ce + 1
+            else:
+                k += 1
+        for pos, dl, ins in sorted(edits, key=lambda e: -e[0]):
+            t[pos:pos + dl] = ins
+
+    def helper_contract(self, name, i_par, i_ob):
+        t = self.toks
+        W = lambda x: WF.format(x=x); L = lambda x: LEN.format(x=x)
+        edits = []
+        if name == '_get_action':
+            key = '%s::_get_action' % self.name
+            req = [W('old(lex)'),
+                   'context.is_some() ==> old(lex).token_start < old(lex).token_end',
+                   'context.is_none() ==> offset <= %s && old(lex).token_start + 1 <= %s' % (L('old(lex)'), L('old(lex)'))]
+            ens = [W('final(lex)'),
+                   'final(lex).source == old(lex).source && final(lex).is_prefix == old(lex).is_prefix',
+                   'final(lex).token_start == old(lex).token_start',
+                   'final(lex).token_start < final(lex).token_end']
+            ins = self.render_contract(key, req, ens, None)
+            self.fns[key] = dict(kind='get_action')
+            pe = match(t, i_par)
+            edits.append((pe + 2, 0, ['(', 'r', ':']))
+            edits.append((i_ob, 0, [')'] + ins))
+        elif name == '_make_error':
+            key = '%s::_make_error' % self.name
+            req = [W('old(lex)')]
+            ens = [W('final(lex)'),
+                   'final(lex).source == old(lex).source && final(lex).is_prefix == old(lex).is_prefix',
+                   'final(lex).token_start == old(lex).token_start && final(lex).token_end == old(lex).token_end']
+            ins = self.render_contract(key, req, ens, None)
+            self.fns[key] = dict(kind='make_error')
+            edits.append((i_ob, 0, ins))
+        return edits
 
     def state_post(self):
         W = lambda x: WF.format(x=x); L = lambda x: LEN.format(x=x)
@@ -546,12 +638,14 @@ class Unit:
         if ens:
             out += ['ensures', '\n']
             for k, e in enumerate(ens): out += self.clause('%s.ensures[%d]' % (key, k), e + ',')
+            if self.canary == key:
+                out += self.clause('%s.canary' % key, 'false,'); self.inserted.pop()
         if dec:
             out += ['decreases', '\n'] + self.clause('%s.decreases' % key, ', '.join(dec) + ',')
         self.entry_for.add(key)
         return out
 
-    ENTRY = ['broadcast', 'use', 'group_verif_axioms', ';']
+    ENTRY = ['broadcast', 'use', 'group_verif_axioms', ',', 'axiom_vlex_u8_slice_len', ';']
 
     def entry_proofs(self):
         """one `proof { broadcast use ..; }` block right after the opening brace of every function under contract"""
@@ -568,7 +662,7 @@ class Unit:
         t = self.toks; edits = []
         L = LEN.format(x='lex')
         bound = '%s + 1' % L if eoi_target else L
-        base = [WF.format(x='lex'), 'lex.token_start < offset && offset <= %s' % bound, '%s <= usize::MAX' % L] if inv_extra is None else inv_extra
+        base = [WF.format(x='lex'), 'lex.token_start < offset && offset <= %s' % bound, '%s <= usize::MAX' % L, 'vlex_off0 <= offset'] if inv_extra is None else inv_extra
         n = 0
         k = i_ob
         while k < i_cb:
@@ -586,6 +680,9 @@ class Unit:
                 ins += ['decreases', '\n'] + self.clause('%s.loop%d.decreases' % (key, n), '%s + 1 - offset,' % L)
                 edits.append((b, 0, ins)); n += 1
             k += 1
+        if n:
+            # ghost snapshot of `offset` at the entry of the state body, so that the invariants can say it never decreases
+            edits.append((i_ob + 1, 0, ['let', 'ghost', 'vlex_off0', '=', 'offset', ';', '\n']))
         return edits
 
     # ---- rendering ---------------------------------------------------------------------------------------------------
@@ -633,14 +730,16 @@ class Unit:
     def _hdr_depth(self, fn_stack):
         return self._paren
 
-def transform(name, raw, lex_req, lex_ens, bytes_view=False):
+def transform(name, raw, lex_req, lex_ens, bytes_view=False, canary=None):
     u = Unit(name, raw, bytes_view=bytes_view)
+    u.canary = canary
     u.reduce_attrs()
     u.analyse()
     u.expand_macros()
     u.labelled_blocks()
     u.make_bytes_view()
     u.hoist_enums()
+    u.rename_arm_items()
     u.rehead_lex(lex_req, lex_ens)
     if u.state_machine:
         u.contracts_state_machine()
